@@ -1,5 +1,6 @@
 """C18: paths written to SVG (wsvg, Document) are read back unchanged, with attributes."""
 from __future__ import annotations
+import re
 import io
 import os
 import shutil
@@ -9,7 +10,7 @@ import numpy as np
 from .. import common
 from ..runner import Corr, Failure
 
-LEAN_MODULES = ['SvgVerif.Props.C18']
+LEAN_MODULES = ['SvgVerif.Props.C18', 'SvgVerif.Props.C18Groups']
 SVGNS = 'http://www.w3.org/2000/svg'
 
 ASSUMPTIONS = [
@@ -67,33 +68,61 @@ def correspond(ctx):
             body, words = _rand_tree(r, counter)
             doc = spt.Document.from_svg_string('<svg xmlns="%s">%s</svg>' % (SVGNS, body))
         ops = []
-        for k in range(r.randint(0, 6)):
+        qres = []
+
+        def _ids_below(el):
+            return sorted(_pid_of(e.get('d')) for e in el.iter('{%s}path' % SVGNS))
+        for k in range(r.randint(0, 7)):
             names = [r.choice(NAMES) for _ in range(r.choice([0, 0, 1, 1, 2, 3]))]
-            if r.random() < 0.75:
+            u = r.random()
+            if u < 0.55:
                 pid = counter[0]
                 counter[0] += 1
                 with warnings.catch_warnings():
                     warnings.simplefilter('ignore')
                     doc.add_path(_d_of(pid), group=(list(names) if names else None))
                 ops.append('P %d %s' % (pid, ' '.join(names)))
-            elif names:
+            elif u < 0.7 and names:
                 doc.get_or_add_group(list(names))
                 ops.append('G %s' % ' '.join(names))
+            elif u < 0.85:
+                # add_group under a parent addressed by name (a second group of the same id may result)
+                parent = names[:-1] if names else []
+                nm = names[-1] if names else r.choice(NAMES)
+                with warnings.catch_warnings():
+                    warnings.simplefilter('ignore')
+                    pel = doc.get_group(list(parent))
+                    doc.add_group({'id': nm}, parent=pel)
+                ops.append('R %s %s' % (nm, ' '.join(parent)))
+            else:
+                # a query by name in the middle of the history
+                with warnings.catch_warnings():
+                    warnings.simplefilter('ignore')
+                    g = doc.get_group(list(names))
+                    got_q = doc.paths_from_group(list(names))
+                below = _ids_below(g) if g is not None else []
+                if sorted(_pid_of(p.element.get('d')) for p in got_q) != below:
+                    below = ['paths_from_group!=elements-below-get_group']
+                qres.append(' '.join(map(str, below)))
+                ops.append('Q %s' % ' '.join(names))
         with warnings.catch_warnings():
             warnings.simplefilter('ignore')
             got = [_pid_of(p.element.get('d')) for p in doc.paths()]
         allp = sorted(_pid_of(e.get('d')) for e in doc.tree.getroot().iter('{%s}path' % SVGNS))
         lines.append('doc D - %s | %s' % (' '.join(words), ' ; '.join(o.strip() for o in ops)))
-        impl.append('ok %s | all %s' % (' '.join(map(str, got)), ' '.join(map(str, allp))))
+        impl.append('ok %s | all %s | q %s' % (' '.join(map(str, got)), ' '.join(map(str, allp)), ' ; '.join(qres)))
         c.count('ops=%d' % len(ops))
+        for o in ops:
+            c.count('op ' + o[0])
     model = []
     for m in common.driver(lines):
         m = m.strip()
         if ' | all' in m:
             a, b = m.split(' | all')
-            m = a + ' | all ' + ' '.join(map(str, sorted(int(x) for x in b.split())))
-        model.append(m.strip())
-    c.compare(lines, model, [x.strip() for x in impl])
+            b, q = (b.split(' | q') + [''])[:2]
+            m = a + ' | all ' + ' '.join(map(str, sorted(int(x) for x in b.split()))) + ' | q ' + q.strip()
+        model.append(re.sub(r'\s+', ' ', m).strip())
+    c.compare(lines, model, [re.sub(r'\s+', ' ', x).strip() for x in impl])
     out.append(c)
 
     # ---- the attributes wsvg writes ---------------------------------------------------------------------------
@@ -260,6 +289,12 @@ def sample(ctx, budget=1.0, hint=None, broken=None):
                         names = [r.choice(NAMES) for _ in range(r.choice([0, 1, 2]))]
                         if r.random() < 0.3 and names:
                             doc.get_or_add_group(list(names))
+                        elif r.random() < 0.4 and names:
+                            # look the name up first (it may not exist yet), then create the group with add_group under its parent
+                            doc.paths_from_group(list(names))
+                            pel = doc.get_group(list(names[:-1]))
+                            if pel is not None and doc.get_group(list(names)) is None:
+                                doc.add_group({'id': names[-1], 'class': 'made-by-add_group'}, parent=pel)
                         at_new = {'id': 'new%d' % k, 'stroke': r.choice(vals)}
                         doc.add_path(newp, at_new, group=(list(names) if names else None))
                         added.append((newp, at_new))
@@ -274,6 +309,19 @@ def sample(ctx, budget=1.0, hint=None, broken=None):
                         if len(el) != 1 or chain[::-1] != list(names):
                             fail('Document.add_path/wrong group', 'add_path(group=names) did not put the path into the group chain that was named',
                                  dict(inp, group=list(names), history=[repr(x[1]) for x in added]), repr(chain[::-1]), repr(list(names)))
+                        elif names:
+                            # ... and that group is the one a lookup by the same names finds, so the document's own query sees the path
+                            g_found = doc.get_group(list(names))
+                            q_ids = [q.element.get('id') for q in doc.paths_from_group(list(names))]
+                            g_tree = doc.tree.getroot()       # the same lookup done on the element tree itself
+                            for nm_ in names:
+                                g_tree = next((ch for ch in g_tree if ch.tag == '{%s}g' % SVGNS and ch.get('id') == nm_), None)
+                                if g_tree is None:
+                                    break
+                            if g_found is not parent.get(el[0]) or g_tree is not parent.get(el[0]) or at_new['id'] not in q_ids:
+                                fail('Document.add_path/not in the group the name lookup finds',
+                                     'a path added with add_path(group=names) is not inside get_group(names) / not returned by paths_from_group(names)',
+                                     dict(inp, group=list(names), history=[repr(x[1]) for x in added]), repr(q_ids), 'contains %r' % at_new['id'])
                     seen = doc.paths()
                     want_all = expect + [spt.parse_path(p.d()) for p, _ in added]
                     for p, a in added:
